@@ -39,7 +39,9 @@ pub type DeltaCoin = Int;
 use std::rc::Rc;
 use std::collections::{HashSet, BTreeSet};
 opaque_types!(DedupIndex);
+#[derive(PartialEq, Eq, Structural)]
 pub enum CborSetType { Tagged, Untagged }
+clone_eq!(CborSetType);
 /// `element.serialize(..)` on an `&Rc<T>` auto-derefs to T's encoder
 impl<T: Ser> Ser for Rc<T> {
     open spec fn enc(&self) -> Seq<Tok> { (**self).enc() }
